@@ -177,7 +177,11 @@ def run_harness(binname, mode, outdir, seed=1, tier="quick", case=None, timeout=
         cmd += ["--seed", str(seed), "--tier", tier]
     else:
         cmd += ["--case", case]
-    rc, out = sh(cmd, timeout=timeout, env=env)
+    # the thorough generators of the crash / history families run for a long time on a loaded machine
+    try:
+        rc, out = sh(cmd, timeout=(timeout * 6 if tier == "thorough" else timeout * 2), env=env)
+    except subprocess.TimeoutExpired:
+        raise Infra("harness %s did not finish within its time limit (tier %s)" % (binname, tier))
     if rc or not os.path.exists(os.path.join(outdir, "stats.json")):
         raise Infra("harness %s failed (rc=%s):\n%s" % (binname, rc, out[-4000:]))
     cases = [json.loads(l) for l in open(os.path.join(outdir, "cases.jsonl"))]
